@@ -1,7 +1,12 @@
 (* Handler.v -- model of pkg/protocol.MultiHandler (handler.go), control logic only.
    The protocol enters through its *shape* (round table) and two oracles:
-     - validity of a message for the round that processes it (decode + Verify/Store succeed),
+     - what the round code does with a message when it processes it: accepts it / rejects it with an error
+       ([m_valid]) / PANICS while decoding, verifying or storing it, or accepts it and panics later in Finalize of
+       that round ([m_panic]),
      - the digest of a round's broadcast view (hash of the stored broadcast messages in party order).
+   A panic of the round code is the runtime state [Panicked 3]; it propagates out of verify / finalize like a Go
+   panic (every function is the identity on a state that is not [Running]) and is turned into a clean abort by the
+   deferred [recover_abort] of Accept -- and only there: NewMultiHandler and Stop have no recover.
    Executable definitions only; proofs are in Proofs/HandlerProofs.v. *)
 From Coq Require Import List NArith ZArith Bool Arith.
 Import ListNotations.
@@ -17,6 +22,12 @@ Record shape := mkShape {
   sh_p2p   : nat -> p2p_kind        (* round r has MessageContent() != nil, and how the previous round addresses it *)
 }.
 
+(* what processing a message does to the round code besides accepting / rejecting it (only consulted for a message
+   the round does not reject, [m_valid = true]):
+     PanicVerify   -- cbor decoding / VerifyMessage / StoreMessage / StoreBroadcastMessage panics on it,
+     PanicFinalize -- it is verified and stored, and Finalize of its round (which reads all parties' inputs) panics *)
+Inductive panic_at := NoPanic | PanicVerify | PanicFinalize.
+
 Record msg := mkMsg {
   m_ssid  : N;            (* interned session tag *)
   m_proto : N;            (* interned protocol id *)
@@ -27,13 +38,19 @@ Record msg := mkMsg {
   m_bcast : bool;
   m_bv    : N;            (* interned BroadcastVerification, 0 = nil *)
   m_fp    : N;            (* fingerprint of the whole message (interned Message.Hash()) *)
-  m_valid : bool          (* oracle: decoding + the round's checks accept this message *)
+  m_valid : bool;         (* oracle: decoding + the round's checks accept this message *)
+  m_panic : panic_at      (* oracle: the round code panics on this (accepted) message, and where *)
 }.
 
-Inductive errkind := EAbortNotice | EVerify | EBroadcastHash | EFinalize | EUser | EProtoAbort.
+Definition panics_verify (m : msg) : bool := match m_panic m with PanicVerify => true | _ => false end.
+Definition panics_finalize (m : msg) : bool := match m_panic m with PanicFinalize => true | _ => false end.
+
+Inductive errkind := EAbortNotice | EVerify | EBroadcastHash | EFinalize | EUser | EProtoAbort
+                   | EPanic.   (* "panic while processing message: ..." (recoverToAbort), nobody named *)
 
 Inductive runtime := Running | Panicked (why : nat) | BlockedOnSend.
-(* why: 1 = close of closed channel, 2 = send on closed channel *)
+(* why: 1 = close of closed channel, 2 = send on closed channel,
+        3 = panic raised by the round code (decode / Verify / Store / Finalize) while a message is processed *)
 
 Record outmsg := mkOut { o_to : option party; o_round : nat; o_bcast : bool; o_bv : N }.
 
@@ -144,6 +161,26 @@ Definition abort (s : hstate) (e : option (list party * errkind)) : hstate :=
   | _ => s
   end.
 
+(* h.err != nil || h.result != nil *)
+Definition terminal (s : hstate) : bool :=
+  (match h_err s with Some _ => true | None => false end) || h_res s.
+
+(* the round code panics: the panic unwinds the handler's call stack (all functions below are the identity on a
+   state that is not Running) up to the deferred recover of Accept, if there is one *)
+Definition raise_panic (s : hstate) : hstate := set_rt s (Panicked 3).
+
+(* MultiHandler.recoverToAbort, deferred by Accept (under the lock): any panic raised in the body -- by the round
+   code or by a channel operation -- is recovered; if the session has not ended (h.err == nil && h.result == nil)
+   it is aborted with the panic as error and NOBODY named, otherwise the panic is just swallowed.
+   (abort itself panics when the channel is already closed: that second panic escapes.) *)
+Definition recover_abort (s : hstate) : hstate :=
+  match h_rt s with
+  | Panicked _ =>
+      let s0 := set_rt s Running in
+      if terminal s0 then s0 else abort s0 (Some ([], EPanic))
+  | _ => s
+  end.
+
 (* blocking send h.out <- msg (during finalize) *)
 Definition emit (s : hstate) (o : outmsg) : hstate :=
   match h_rt s with
@@ -157,7 +194,8 @@ Definition emit (s : hstate) (o : outmsg) : hstate :=
   end.
 
 (* outcome of verifying one message *)
-Inductive vres := VOk | VBad | VHash.
+Inductive vres := VOk | VBad | VHash
+              | VPanic.   (* the round code panicked on the message *)
 Definition vres_ok (v : vres) : bool := match v with VOk => true | _ => false end.
 
 Section Oracles.
@@ -218,7 +256,8 @@ Section Oracles.
     end.
 
   (* verifyMessage for a p2p message of the current round: ok (or postponed) / rejected (sender named) /
-     sent under a different broadcast view (nobody named) *)
+     sent under a different broadcast view (nobody named) / the round code panics on it.
+     The view comparison and the nil-content decode error come BEFORE any round code runs. *)
   Definition verify_p2p (s : hstate) (m : msg) : vres :=
     if negb (existsb (Nat.eqb (m_round m)) (h_reached s)) then VOk
     else if sh_bcast (h_shape s) (m_round m) &&
@@ -227,7 +266,7 @@ Section Oracles.
     else if negb (same_view s m) then VHash
     else match sh_p2p (h_shape s) (m_round m) with
          | NoP2P => VBad       (* MessageContent() == nil: cbor.Unmarshal into nil fails *)
-         | _ => if m_valid m then VOk else VBad
+         | _ => if m_valid m then (if panics_verify m then VPanic else VOk) else VBad
          end.
 
   (* verifyBroadcastMessage; chains the queued p2p message of the same sender *)
@@ -236,6 +275,7 @@ Section Oracles.
     else if negb (same_view s m) then VHash
     else if negb (sh_bcast (h_shape s) (m_round m)) then VBad   (* "got broadcast message when none was expected" *)
     else if negb (m_valid m) then VBad
+    else if panics_verify m then VPanic                         (* decode / StoreBroadcastMessage panics *)
     else match sh_p2p (h_shape s) (m_round m) with
          | NoP2P => VOk
          | _ => match qget (h_qp s) (m_round m) (m_from m) with
@@ -256,7 +296,7 @@ Section Oracles.
             end.
 
   Definition own_bcast_msg (s : hstate) (o : outmsg) : msg :=
-    mkMsg (h_ssid s) (h_proto s) (h_self s) (o_to o) (o_round o) true true (o_bv o) (own_fp (o_round o)) true.
+    mkMsg (h_ssid s) (h_proto s) (h_self s) (o_to o) (o_round o) true true (o_bv o) (own_fp (o_round o)) true NoPanic.
 
   Fixpoint emit_all (s : hstate) (l : list outmsg) : hstate :=
     match l with
@@ -278,7 +318,18 @@ Section Oracles.
     | None => None
     end.
 
-  (* MultiHandler.finalize *)
+  (* h.currentRound.Finalize(out) panics: one of the messages the round verified and stored (of a kind the round
+     expects; anything else in the queues was never handed to the round) makes it panic *)
+  Definition fin_panics (s : hstate) : bool :=
+    let r := h_cur s in
+    (sh_bcast (h_shape s) r
+     && existsb (fun e => match e with (r', _, m) => (r' =? r) && panics_finalize m end) (h_qb s))
+    || ((match sh_p2p (h_shape s) r with NoP2P => false | _ => true end)
+        && existsb (fun e => match e with (r', _, m) => (r' =? r) && panics_finalize m end) (h_qp s)).
+
+  (* MultiHandler.finalize.  State at the two panic points: Finalize of the current round panics AFTER receivedAll
+     recorded the view digest of the round and BEFORE anything is forwarded or the round advances; a queued message
+     of the new round panics AFTER the round's messages were forwarded and h.currentRound advanced. *)
   Fixpoint finalize (fuel : nat) (s : hstate) : hstate :=
     match fuel with
     | O => s
@@ -289,6 +340,7 @@ Section Oracles.
             let '(all, s1) := received_all s in
             if negb all then s1
             else if negb (check_broadcast_hash s1) then abort s1 (Some ([], EBroadcastHash))
+            else if fin_panics s1 then raise_panic s1
             else
               let r := h_cur s1 in
               let bv := match hget (h_hashes s1) r with Some d => d | None => 0%N end in
@@ -309,6 +361,7 @@ Section Oracles.
                     else
                       match first_bad s3 nr with
                       | Some (_, VHash) => abort s3 (Some ([], EBroadcastHash))
+                      | Some (_, VPanic) => raise_panic s3
                       | Some (j, _) => abort s3 (Some ([j], EVerify))
                       | None => finalize fuel' s3
                       end
@@ -320,8 +373,9 @@ Section Oracles.
 
   Definition fuel_of (s : hstate) : nat := sh_final (h_shape s) + 3.
 
-  (* MultiHandler.Accept *)
-  Definition accept (s : hstate) (m : msg) : hstate :=
+  (* the body of MultiHandler.Accept (what runs between the defers and the return / the panic).
+     The message is stored BEFORE it is verified: a message the round code panics on stays in its queue slot. *)
+  Definition accept_body (s : hstate) (m : msg) : hstate :=
     match h_rt s with
     | Running =>
         if negb (can_accept s m) || (match h_err s with Some _ => true | None => false end)
@@ -334,11 +388,24 @@ Section Oracles.
                | VOk => finalize (fuel_of s1) s1
                | VBad => abort s1 (Some ([m_from m], EVerify))
                | VHash => abort s1 (Some ([], EBroadcastHash))
+               | VPanic => raise_panic s1
                end
     | _ => s
     end.
 
-  (* NewMultiHandler: build the state for round 1 and call finalize *)
+  (* MultiHandler.Accept: Lock; defer Unlock; defer recoverToAbort; body *)
+  Definition accept (s : hstate) (m : msg) : hstate :=
+    match h_rt s with
+    | Running => recover_abort (accept_body s m)
+    | _ => s
+    end.
+
+  (* Accept before the recovery was added (fix "handlers recover a panic raised while processing a message"):
+     the panic escapes to the caller *)
+  Definition accept_v0 (s : hstate) (m : msg) : hstate := accept_body s m.
+
+  (* NewMultiHandler: build the state for round 1 and call finalize (no recover; no peer message exists yet, so in
+     this model nothing can panic here) *)
   Definition init_state (self : party) (n : nat) (ssid proto : N) (sh : shape) : hstate :=
     mkH self n ssid proto sh 1 [1] [] [] [] None false [] 0 0 Running.
   Definition new_handler (self : party) (n : nat) (ssid proto : N) (sh : shape) : hstate :=
@@ -346,9 +413,7 @@ Section Oracles.
 End Oracles.
 
 (* MultiHandler.Stop.  [fixed = false]: the guard as found at the pinned commit (acts only when already
-   finished); [fixed = true]: acts only while running. *)
-Definition terminal (s : hstate) : bool :=
-  (match h_err s with Some _ => true | None => false end) || h_res s.
+   finished); [fixed = true]: acts only while running.  No recover here. *)
 
 Definition stop (fixed : bool) (s : hstate) : hstate :=
   match h_rt s with
